@@ -43,6 +43,8 @@ func trivialDouble(f float64) bool { return f == 0 || f == 1 }
 
 func famC04(rn *Runner) {
 	d := rn.genDoc(60)
+	rn.checkCallerResults(d, "all") // a caller-implemented Result as variable and function result
+
 	g := NewExprGen(rn.R.Fork(), d, stdEnv())
 	// (a) doubles
 	n := rn.Scale(3000, 60000)
@@ -259,6 +261,8 @@ func famC05(rn *Runner) {
 	mirror := map[string]string{"<": ">", "<=": ">=", ">": "<", ">=": "<=", "=": "=", "!=": "!="}
 	for di := 0; di < rn.Scale(8, 100) && !rn.TooMany(); di++ {
 		d := rn.genDoc(rn.Scale(40, 100))
+		rn.checkCallerResults(d, "all") // a caller-implemented Result as variable and function result
+
 		// $u: 3-6 nodes in an arbitrary order, $w: 3-6 nodes in reverse document order (small: the bindings travel with every query)
 		env := stdEnv()
 		var us, ws []Path
@@ -306,6 +310,8 @@ func famC05(rn *Runner) {
 
 func famC06(rn *Runner) {
 	d := rn.genDoc(60)
+	rn.checkCallerResults(d, "num") // a caller-implemented Result as variable and function result
+
 	g := NewExprGen(rn.R.Fork(), d, stdEnv())
 	arOps := []string{"+", "-", "*", "div", "mod"}
 	n := rn.Scale(2500, 50000)
@@ -411,6 +417,8 @@ var nearTies = []float64{0.49999999999999994, -0.49999999999999994, 1.4999999999
 
 func famC07(rn *Runner) {
 	d := rn.genDoc(40)
+	rn.checkCallerResults(d, "all") // a caller-implemented Result as variable and function result
+
 	g := NewExprGen(rn.R.Fork(), d, stdEnv())
 	n := rn.Scale(2500, 40000)
 	for i := 0; i < n && !rn.TooMany(); i++ {
